@@ -74,7 +74,7 @@ func runProc(exe string, args []string, lines []string) ([]string, int, error) {
 	cmd.Stdin = strings.NewReader(strings.Join(lines, "\n") + "\n")
 	var out bytes.Buffer
 	cmd.Stdout = &out
-	cmd.Stderr = os.Stderr
+	cmd.Stderr = realStderr
 	err := cmd.Run()
 	code := 0
 	if err != nil {
@@ -94,7 +94,7 @@ func runImpl(lines []string) ([]string, int) {
 	for len(rest) > 0 {
 		out, code, err := runProc(selfExe(), []string{"worker"}, rest)
 		if err != nil {
-			fmt.Fprintln(os.Stderr, "worker:", err)
+			fmt.Fprintln(realStderr, "worker:", err)
 		}
 		if len(out) > len(rest) {
 			out = out[:len(rest)]
@@ -122,7 +122,7 @@ func runModel(lines []string) []string {
 	for len(rest) > 0 {
 		out, code, err := runProc(modelExe, nil, rest)
 		if err != nil {
-			fmt.Fprintln(os.Stderr, "fitmodel:", err)
+			fmt.Fprintln(realStderr, "fitmodel:", err)
 			for range rest {
 				res = append(res, "model-unavailable")
 			}
